@@ -165,7 +165,7 @@ func (q *QueryRangeService) exportStreamsValue(out chan []shared.LogEntry,
 				drain(out)
 				return
 			}
-			if lastFp != e.Fingerprint {
+			if i == 0 || lastFp != e.Fingerprint {
 				if i > 0 {
 					// Close previous stream entry
 					stream.WriteArrayEnd()
@@ -615,7 +615,7 @@ func (q *QueryRangeService) Tail(ctx context.Context, query string) (model.IWatc
 						drain(out)
 						return
 					}
-					if lastFp != e.Fingerprint {
+					if i == 0 || lastFp != e.Fingerprint {
 						if i > 0 {
 							stream.WriteArrayEnd()
 							stream.WriteObjectEnd()
